@@ -544,3 +544,88 @@ def rnd_of(draw):
     """a seeded random.Random drawn through Hypothesis (kept inside the library's control)"""
     st = _st()
     return random.Random(draw(st.integers(0, 2 ** 32 - 1)))
+
+
+_TREE_ENV = []
+
+
+def tree_env_names():
+    """
+    names of environment variables the tree under test may consult: identifier-like string constants of those source files that
+    mention the process environment at all (environ / getenv).  A generator HINT like tree_constants(): empty for a tree that
+    never looks at the environment (the pinned one), never read by an oracle.  Deterministic (sorted).
+    """
+    if _TREE_ENV:
+        return [x for x in _TREE_ENV if x]
+    import os
+    import re
+    from . import runner
+    found = set()
+
+    def walk(code):
+        for c in code.co_consts:
+            if isinstance(c, str) and re.match(r"^[A-Za-z_][A-Za-z0-9_]{1,30}$", c):
+                found.add(c)
+            elif isinstance(c, (tuple, frozenset)):
+                for x in c:
+                    if isinstance(x, str) and re.match(r"^[A-Za-z_][A-Za-z0-9_]{1,30}$", x):
+                        found.add(x)
+            elif hasattr(c, "co_consts"):
+                walk(c)
+    d = os.path.join(runner.REPO, "cvss")
+    for name in sorted(os.listdir(d)):
+        if name.endswith(".py"):
+            try:
+                with open(os.path.join(d, name), encoding="utf-8") as f:
+                    src = f.read()
+                if re.search(r"\benviron\b|getenv", src):
+                    walk(compile(src, name, "exec"))
+            except (OSError, SyntaxError, ValueError):
+                pass
+    upper = sorted(x for x in found if x.upper() == x)
+    names = (upper or sorted(found))[:24]
+    _TREE_ENV.extend(names or [""])
+    return names
+
+
+ENV_VALUES = ("", "1", "0", "yes", "no", "true", "x y", "-1", "99999999999999999999", "\t", "utf-8", "/nonexistent", "3.1")
+
+
+# sub-groups of the optional metrics: the units a "is this part of the vector used at all" shortcut can key on
+SUBGROUPS = {
+    "2": (("E", "RL", "RC"), ("CDP", "TD"), ("CR", "IR", "AR")),
+    "3": (("E", "RL", "RC"), ("CR", "IR", "AR"), ("MAV", "MAC", "MPR", "MUI"), ("MS",), ("MC", "MI", "MA")),
+    "4": (("E",), ("CR", "IR", "AR"), ("MAV", "MAC", "MAT", "MPR", "MUI"), ("MVC", "MVI", "MVA"), ("MSC", "MSI", "MSA"), ("S", "AU", "R", "V", "RE", "U")),
+}
+
+
+def all_bases(ver):
+    """every assignment of the mandatory metrics (v2: 729, v3: 2592 per minor version; v4: 0.1 M - sample it)"""
+    import itertools
+    from . import spec
+    V = spec.VERS[ver]
+    names = list(V.mandatory)
+    for combo in itertools.product(*[list(V.table[m]) for m in names]):
+        yield dict(zip(names, combo))
+
+
+def rng_shape(rng, ver, group, d):
+    """fill one sub-group of optional metrics in d with a random shape: absent / all Not Defined / all defined / mixed"""
+    from . import spec
+    V = spec.VERS[ver]
+    shape = rng.choice(("absent", "nd", "defined", "mixed"))
+    for m in group:
+        if shape == "absent":
+            continue
+        vals = [x for x in V.table[m] if x != V.nd]
+        if shape == "nd":
+            d[m] = V.nd
+        elif shape == "defined":
+            d[m] = rng.choice(vals)
+        else:
+            c = rng.randrange(3)
+            if c == 0:
+                d[m] = V.nd
+            elif c == 1:
+                d[m] = rng.choice(vals)
+    return shape
